@@ -473,9 +473,323 @@ Proof.
   unfold py_field_value.
   destruct (f_type fld) as [| a et | | | | | | a k v cs | | |] eqn:FT; try discriminate.
   - (* array *) unfold declared_dyn in *. simpl in *. rewrite S1. rewrite orb_true_r.
-    rewrite S1. simpl. unfold py_lit. rewrite PL. reflexivity.
+    simpl. unfold py_lit. rewrite PL. reflexivity.
   - (* scalar *) unfold declared_dyn in *. simpl in *.
     destruct (dyn_is_nil v) eqn:VN; simpl.
-    + rewrite S1. rewrite orb_true_r. rewrite S1. simpl. unfold py_lit. rewrite PL. reflexivity.
+    + rewrite S1. rewrite orb_true_r. simpl. unfold py_lit. rewrite PL. reflexivity.
     + unfold py_lit. rewrite PL. reflexivity.
+Qed.
+
+Lemma combine3_names : forall (fs : list field) (vs : list pval), List.length fs = List.length vs ->
+  map (fun e : string * bool * pval => fst (fst e)) (combine (combine (map (@f_name ty) fs) (map (@f_required ty) fs)) vs) =
+  map (@f_name ty) fs.
+Proof.
+  induction fs as [|f r IH]; intros vs H; destruct vs as [|v s]; simpl in *; try discriminate; [reflexivity|].
+  rewrite IH by (apply eq_add_S; exact H). reflexivity.
+Qed.
+
+Lemma emitted_combine : forall (fs : list field) (vs : list pval) fld x,
+  NoDup (map (@f_name ty) fs) -> List.length fs = List.length vs -> In (fld, x) (combine fs vs) ->
+  PySemProofs.emitted (combine (combine (map (@f_name ty) fs) (map (@f_required ty) fs)) vs) (f_name fld) =
+  if f_required fld then Some (py_encode x)
+  else if PySemProofs.is_pnone x then None else Some (py_encode x).
+Proof.
+  unfold PySemProofs.emitted.
+  induction fs as [|f r IH]; intros vs fld x Hnd Hlen Hin; destruct vs as [|v s]; simpl in *; try contradiction; try discriminate.
+  inversion Hnd as [|? ? Hni Hnd']; subst.
+  destruct Hin as [E|Hin].
+  - inversion E; subst. rewrite seqb_refl. reflexivity.
+  - assert (NE : seqb (f_name f) (f_name fld) = false).
+    { apply String.eqb_neq. intro E. apply Hni. rewrite E. apply in_combine_l in Hin. apply in_map. exact Hin. }
+    rewrite NE. apply IH; [exact Hnd' | apply eq_add_S; exact Hlen | exact Hin].
+Qed.
+
+Theorem ctor_defaults_py_partial : forall pctx p n fs j,
+  plain_struct_object pctx p n = Some fs -> py_ctor pctx p n = POk j -> simple_fields_hold fs j = true.
+Proof.
+  intros pctx p n fs j PS H. destruct (plain_struct_facts pctx p n fs PS) as [_ [SF Hnd]].
+  unfold py_ctor, py_ctor_value in H. rewrite SF in H. unfold py_fuel in H. rewrite PySemProofs.py_init_S in H.
+  destruct (pall (map (py_field_value pctx (py_default pctx (S (2 * count_objects pctx))) []) fs)) as [vs|w|w|w] eqn:PA;
+    try discriminate.
+  assert (Hj : j = py_encode (mk_obj p n fs vs)) by (unfold pbind in H; inversion H; reflexivity).
+  clear H. rewrite Hj. clear Hj.
+  apply pall_ok_inv in PA.
+  assert (F2 : Forall2 (fun fld v => py_field_value pctx (py_default pctx (S (2 * count_objects pctx))) [] fld = POk v) fs vs).
+  { clear -PA. revert vs PA. induction fs as [|f r IH]; intros vs PA; inversion PA; subst; constructor; [assumption | apply IH; assumption]. }
+  destruct (Forall2_combine_In _ _ _ F2) as [Hlen HIn].
+  unfold mk_obj. rewrite PySemProofs.py_encode_obj.
+  unfold simple_fields_hold. apply forallb_forall. intros fld Hfld.
+  destruct (simple_field fld) eqn:SFl; [|reflexivity]. simpl.
+  destruct (py_simple_field pctx (2 * count_objects pctx) fld SFl) as [je [DJ [NN FV]]].
+  rewrite DJ. unfold holds_member.
+  destruct (In_combine_of_In fs vs fld Hlen Hfld) as [x Hx].
+  pose proof (HIn fld x Hx) as FV'. rewrite FV in FV'. inversion FV'; subst x.
+  rewrite PySemProofs.find_member_obj by (rewrite (combine3_names fs vs Hlen); exact Hnd).
+  rewrite (emitted_combine fs vs fld (praw je) Hnd Hlen Hx).
+  assert (NP : PySemProofs.is_pnone (praw je) = false).
+  { destruct je; try reflexivity. exfalso. apply NN. reflexivity. }
+  rewrite NP. rewrite PySemProofs.py_encode_praw. destruct (f_required fld); apply json_eq_refl.
+Qed.
+
+(* ---------- the two languages agree on the simple fields ---------- *)
+Lemma json_eqb_true : forall a b, json_eqb a b = true -> a = b.
+Proof.
+  fix IH 1. intros a b H. destruct a; destruct b; simpl in H; try discriminate.
+  - reflexivity.
+  - apply Bool.eqb_prop in H. subst. reflexivity.
+  - apply andb_true_iff in H. destruct H as [H1 H2]. apply Z.eqb_eq in H1. apply Z.eqb_eq in H2. subst. reflexivity.
+  - apply String.eqb_eq in H. subst. reflexivity.
+  - f_equal. revert l0 H. induction l as [|x r IHl]; intros l0 H; destruct l0 as [|y s]; try discriminate; [reflexivity|].
+    apply andb_true_iff in H. destruct H as [H1 H2]. rewrite (IH x y H1). rewrite (IHl s H2). reflexivity.
+  - f_equal. revert ms0 H. induction ms as [|[k x] r IHl]; intros ms0 H; destruct ms0 as [|[k' y] s]; try discriminate; [reflexivity|].
+    apply andb_true_iff in H. destruct H as [H H2]. apply andb_true_iff in H. destruct H as [H0 H1].
+    apply String.eqb_eq in H0. subst. rewrite (IH x y H1). rewrite (IHl s H2). reflexivity.
+Qed.
+
+Lemma json_eq_sym_trans : forall a b c, json_eq a c = true -> json_eq b c = true -> json_eq a b = true.
+Proof.
+  unfold json_eq. intros a b c H1 H2. apply json_eqb_true in H1. apply json_eqb_true in H2.
+  rewrite H1, H2. apply json_eqb_refl.
+Qed.
+
+Definition simple_fields_agree (fs : list field) (a b : json) : bool :=
+  forallb (fun fld => (negb (simple_field fld) ||
+                       match a, b with
+                       | JObj x, JObj y =>
+                           match find_member (f_name fld) x, find_member (f_name fld) y with
+                           | Some u, Some v => json_eq u v
+                           | _, _ => false
+                           end
+                       | _, _ => false
+                       end)%bool) fs.
+
+Theorem go_py_agree_partial : forall ctx pctx p n fs a b,
+  plain_struct_object ctx p n = Some fs -> plain_struct_object pctx p n = Some fs ->
+  go_ctor ctx p n = COk a -> py_ctor pctx p n = POk b -> simple_fields_agree fs a b = true.
+Proof.
+  intros ctx pctx p n fs a b G P HA HB.
+  pose proof (ctor_defaults_go_partial ctx p n fs a G HA) as GA.
+  pose proof (ctor_defaults_py_partial pctx p n fs b P HB) as PB.
+  unfold simple_fields_hold in GA, PB. rewrite forallb_forall in GA, PB.
+  unfold simple_fields_agree. apply forallb_forall. intros fld Hin.
+  specialize (GA fld Hin). specialize (PB fld Hin).
+  destruct (simple_field fld); [|reflexivity]. simpl in *.
+  destruct (dyn_json (declared_dyn (f_type fld))) as [e|]; [|discriminate].
+  unfold holds_member in GA, PB. destruct a; try discriminate. destruct b; try discriminate.
+  destruct (find_member (f_name fld) ms); [|discriminate].
+  destruct (find_member (f_name fld) ms0); [|discriminate].
+  apply (json_eq_sym_trans _ _ e); assumption.
+Qed.
+
+(* ---------- the full statements and their witnesses ---------- *)
+From Cog Require Import Model.Passes Model.PassesChain Model.Process Gen.Chains_gen.
+
+Definition ctor_defaults_go_statement : Prop :=
+  forall ctx p n fs j, plain_struct_object ctx p n = Some fs -> go_ctor ctx p n = COk j -> all_declared_hold fs j = true.
+Definition ctor_defaults_py_statement : Prop :=
+  forall pctx p n fs j, plain_struct_object pctx p n = Some fs -> py_ctor pctx p n = POk j -> all_declared_hold fs j = true.
+
+Definition wS : ty := TScalar attrs0 KString DNil [].
+Definition wmeta : smeta := {| m_kind := ""; m_variant := ""; m_identifier := "" |}.
+Definition wdef (d : dyn) : attrs := {| nullable := false; dflt := d; hints := [] |}.
+Definition wnull : attrs := {| nullable := true; dflt := DNil; hints := [] |}.
+
+(* Go: a default carried by a reference to a disjunction struct is printed as the EMPTY struct literal *)
+Definition wit_go_union : schemas :=
+  [mkSchema "w" wmeta "" (TBad attrs0 "")
+     [("Root", mkObject "Root" [] (TStruct attrs0 [] [mkField "un" [] (TRef (wdef (DStr "x")) "w" "StringOrBool") true]) "w" "Root");
+      ("StringOrBool", mkObject "StringOrBool" []
+         (TStruct attrs0 [("disjunction_of_scalars", mkDisj [wS; TScalar attrs0 KBool DNil []] "" [])]
+            [mkField "String" [] (TScalar wnull KString DNil []) false; mkField "Bool" [] (TScalar wnull KBool DNil []) false])
+         "w" "StringOrBool")]].
+
+Theorem ctor_defaults_go_refuted : ~ ctor_defaults_go_statement.
+Proof.
+  intro H.
+  assert (A : plain_struct_object wit_go_union "w" "Root" = Some [mkField "un" [] (TRef (wdef (DStr "x")) "w" "StringOrBool") true]) by reflexivity.
+  assert (B : go_ctor wit_go_union "w" "Root" = COk (JObj [("un", JNull)])) by (vm_compute; reflexivity).
+  pose proof (H _ _ _ _ _ A B) as G.
+  assert (N : all_declared_hold [mkField "un" [] (TRef (wdef (DStr "x")) "w" "StringOrBool") true] (JObj [("un", JNull)]) = false)
+    by (vm_compute; reflexivity).
+  rewrite N in G. discriminate.
+Qed.
+
+(* Python: a default carried by a reference to a scalar alias is ignored (`Name()` is printed) *)
+Definition wit_py_alias : schemas :=
+  [mkSchema "w" wmeta "" (TBad attrs0 "")
+     [("N", mkObject "N" [] wS "w" "N");
+      ("Root", mkObject "Root" [] (TStruct attrs0 [] [mkField "id" [] (TRef (wdef (DStr "abc")) "w" "N") true]) "w" "Root")]].
+
+Theorem ctor_defaults_py_refuted : ~ ctor_defaults_py_statement.
+Proof.
+  intro H.
+  assert (A : plain_struct_object wit_py_alias "w" "Root" = Some [mkField "id" [] (TRef (wdef (DStr "abc")) "w" "N") true]) by reflexivity.
+  assert (B : py_ctor wit_py_alias "w" "Root" = POk (JObj [("id", JStr "")])) by (vm_compute; reflexivity).
+  pose proof (H _ _ _ _ _ A B) as G.
+  assert (N : all_declared_hold [mkField "id" [] (TRef (wdef (DStr "abc")) "w" "N") true] (JObj [("id", JStr "")]) = false)
+    by (vm_compute; reflexivity).
+  rewrite N in G. discriminate.
+Qed.
+
+(* a list default of integers: `[]string{1, 2}` assigned to a []int64 field -- the package has no constructor at all *)
+Definition wit_go_list : schemas :=
+  [mkSchema "w" wmeta "" (TBad attrs0 "")
+     [("Root", mkObject "Root" []
+         (TStruct attrs0 [] [mkField "l" [] (TArray (wdef (DList [DInt "int64" 1; DInt "int64" 2])) (TScalar attrs0 KInt64 DNil [])) true])
+         "w" "Root")]].
+Theorem go_list_default_does_not_compile :
+  go_ctor wit_go_list "w" "Root" = CNoCompile "[]string literal assigned to another slice type" /\
+  py_ctor wit_go_list "w" "Root" = POk (JObj [("l", JArr [JNum 1 0; JNum 2 0])]).
+Proof. split; vm_compute; reflexivity. Qed.
+
+(* ---- through the REAL pass chains (Gen/Chains_gen.v, regenerated from the jennies' CompilerPasses()) ---- *)
+(* a struct declaring an anonymous enumeration with a default and a union with a default (what the CUE
+   front-end produces for `en: *"h" | "v"` and `un: string | bool | *"x"`) *)
+Definition wit_pre : schemas :=
+  [mkSchema "w" wmeta "" (TBad attrs0 "")
+     [("Root", mkObject "Root" []
+         (TStruct attrs0 []
+            [mkField "en" [] (TEnum (wdef (DStr "h")) [mkEnumVal wS "h" (DStr "h"); mkEnumVal wS "v" (DStr "v")]) true;
+             mkField "un" [] (TDisj (wdef (DStr "x")) (mkDisj [wS; TScalar attrs0 KBool DNil []] "" [])) true])
+         "w" "Root")]].
+
+Definition pre_fields (pre : schemas) (p n : string) : option (list field) := plain_struct_object pre p n.
+
+Definition ctor_defaults_go_chain_statement : Prop :=
+  forall pre post p n fs j, process chain_go pre = Ok post -> pre_fields pre p n = Some fs ->
+    go_ctor post p n = COk j -> all_declared_hold fs j = true.
+
+Definition wit_gpost : schemas := Eval vm_compute in (match process chain_go wit_pre with Ok p => p | _ => [] end).
+Definition wit_ppost : schemas := Eval vm_compute in (match process chain_python wit_pre with Ok p => p | _ => [] end).
+Definition wit_pre_fs : list field :=
+  Eval vm_compute in (match plain_struct_object wit_pre "w" "Root" with Some fs => fs | None => [] end).
+
+Lemma wit_pre_go : process chain_go wit_pre = Ok wit_gpost /\
+  go_ctor wit_gpost "w" "Root" = COk (JObj [("en", JStr ""); ("un", JNull)]).
+Proof. split; vm_compute; reflexivity. Qed.
+
+Lemma wit_pre_py : process chain_python wit_pre = Ok wit_ppost /\
+  py_ctor wit_ppost "w" "Root" = POk (JObj [("en", JStr "h"); ("un", JStr "x")]).
+Proof. split; vm_compute; reflexivity. Qed.
+
+Lemma wit_pre_fields : pre_fields wit_pre "w" "Root" = Some wit_pre_fs.
+Proof. vm_compute. reflexivity. Qed.
+
+(* the Go chain loses both defaults (AnonymousEnumToExplicitType, DisjunctionToType) *)
+Theorem ctor_defaults_go_chain_refuted : ~ ctor_defaults_go_chain_statement.
+Proof.
+  intro H. destruct wit_pre_go as [A B].
+  pose proof (H wit_pre wit_gpost "w" "Root" wit_pre_fs _ A wit_pre_fields B) as G.
+  assert (N : all_declared_hold wit_pre_fs (JObj [("en", JStr ""); ("un", JNull)]) = false) by (vm_compute; reflexivity).
+  rewrite N in G. discriminate.
+Qed.
+
+(* ... and so Go and Python disagree on fields with a declared default *)
+Definition declared_agree (fs : list field) (a b : json) : bool :=
+  forallb (fun fld => (dyn_is_nil (declared_dyn (f_type fld)) ||
+                       match a, b with
+                       | JObj x, JObj y =>
+                           match find_member (f_name fld) x, find_member (f_name fld) y with
+                           | Some u, Some v => json_eq u v
+                           | _, _ => false end
+                       | _, _ => false end)%bool) fs.
+
+Definition go_py_agree_statement : Prop :=
+  forall pre gpost ppost p n fs a b,
+    process chain_go pre = Ok gpost -> process chain_python pre = Ok ppost -> pre_fields pre p n = Some fs ->
+    go_ctor gpost p n = COk a -> py_ctor ppost p n = POk b -> declared_agree fs a b = true.
+
+Theorem go_py_agree_refuted : ~ go_py_agree_statement.
+Proof.
+  intro H. destruct wit_pre_go as [A B]. destruct wit_pre_py as [C D].
+  pose proof (H wit_pre wit_gpost wit_ppost "w" "Root" wit_pre_fs _ _ A C wit_pre_fields B D) as G.
+  assert (N : declared_agree wit_pre_fs (JObj [("en", JStr ""); ("un", JNull)]) (JObj [("en", JStr "h"); ("un", JStr "x")]) = false)
+    by (vm_compute; reflexivity).
+  rewrite N in G. discriminate.
+Qed.
+
+(* ---------- the default's journey through the front-ends (scalars) ---------- *)
+Definition scalar_json_value (j : json) : bool :=
+  match j with JBool _ | JNum _ _ | JStr _ => true | _ => false end.
+
+Lemma fe_value_plain_num : forall fmt numtext m e, numtext_ok numtext -> seqb fmt "jsonschema" = false ->
+  dyn_plain (fe_value fmt numtext (JNum m e)) = true /\ dyn_json (fe_value fmt numtext (JNum m e)) = Some (JNum m e).
+Proof.
+  intros fmt numtext m e NT F. simpl. rewrite F.
+  destruct (seqb fmt "openapi"); simpl.
+  - rewrite (NT m e). split; reflexivity.
+  - destruct (Z.eqb e 0) eqn:E0; simpl.
+    + apply Z.eqb_eq in E0. subst. split; reflexivity.
+    + rewrite (NT m e). split; reflexivity.
+Qed.
+
+(* CUE and OpenAPI: a scalar default that fits its field arrives as a literal the Go field accepts and holds,
+   and as a Python literal denoting the same value *)
+Theorem default_not_altered_cue_openapi : forall fmt numtext pt k j,
+  (seqb fmt "cue" || seqb fmt "openapi")%bool = true -> numtext_ok numtext ->
+  scalar_json_value j = true -> fits_scalar k j = true -> is_datetime pt = false ->
+  (exists v, assign_scalar pt k (format_scalar (fe_value fmt numtext j)) = COk v /\ gscalar_holds v j = true) /\
+  py_lit_json (fe_value fmt numtext j) = POk j.
+Proof.
+  intros fmt numtext pt k j F NT SJ FJ DT.
+  assert (NJ : seqb fmt "jsonschema" = false).
+  { destruct (seqb fmt "cue") eqn:C; [apply String.eqb_eq in C; subst; reflexivity|].
+    destruct (seqb fmt "openapi") eqn:O; [apply String.eqb_eq in O; subst; reflexivity | discriminate]. }
+  assert (PJ : dyn_plain (fe_value fmt numtext j) = true /\ dyn_json (fe_value fmt numtext j) = Some j).
+  { destruct j; simpl in SJ; try discriminate; try (split; reflexivity). apply fe_value_plain_num; assumption. }
+  destruct PJ as [P J]. split.
+  - destruct (assign_scalar_fits pt k _ j P J FJ DT) as [v [A [B _]]]. exists v. split; assumption.
+  - apply py_lit_json_plain; assumption.
+Qed.
+
+(* JSON Schema: a numeric default stays a json.Number, which %#v prints as a QUOTED string: Go rejects the literal
+   for every integer and float field (the package does not compile), Python stores a string *)
+Theorem default_altered_jsonschema_numbers : forall numtext pt k m e,
+  fits_scalar k (JNum m e) = true ->
+  (exists w, assign_scalar pt k (format_scalar (fe_value "jsonschema" numtext (JNum m e))) = CNoCompile w) /\
+  py_lit_json (fe_value "jsonschema" numtext (JNum m e)) = POk (JStr (numtext m e)).
+Proof.
+  intros numtext pt k m e F. split; [|reflexivity].
+  destruct k; simpl in F; try discriminate; simpl; eexists; reflexivity.
+Qed.
+
+Theorem default_not_altered_jsonschema_partial : forall numtext pt k j,
+  match j with JBool _ | JStr _ => True | _ => False end -> fits_scalar k j = true -> is_datetime pt = false ->
+  (exists v, assign_scalar pt k (format_scalar (fe_value "jsonschema" numtext j)) = COk v /\ gscalar_holds v j = true) /\
+  py_lit_json (fe_value "jsonschema" numtext j) = POk j.
+Proof.
+  intros numtext pt k j SJ FJ DT.
+  assert (PJ : dyn_plain (fe_value "jsonschema" numtext j) = true /\ dyn_json (fe_value "jsonschema" numtext j) = Some j).
+  { destruct j; try contradiction; split; reflexivity. }
+  destruct PJ as [P J]. split.
+  - destruct (assign_scalar_fits pt k _ j P J FJ DT) as [v [A [B _]]]. exists v. split; assumption.
+  - apply py_lit_json_plain; assumption.
+Qed.
+
+(* the JSON Schema front-end drops the default of an enumeration, of a union and of an inline object; the OpenAPI
+   front-end those of unions and inline objects (walkEnum / walkOneOf / walkObject never read `default`) *)
+Theorem defaults_dropped_by_front_ends : forall numtext j,
+  fe_default "jsonschema" "enum" numtext j = DNil /\ fe_default "jsonschema" "union" numtext j = DNil /\
+  fe_default "jsonschema" "struct" numtext j = DNil /\
+  fe_default "openapi" "union" numtext j = DNil /\ fe_default "openapi" "struct" numtext j = DNil.
+Proof. intros. repeat split; reflexivity. Qed.
+
+Example c10_nonvacuous :
+  exists ctx p n fs a b,
+    plain_struct_object ctx p n = Some fs /\ go_ctor ctx p n = COk a /\ py_ctor ctx p n = POk b /\
+    List.length (filter simple_field fs) >= 3 /\ simple_fields_hold fs a = true /\ simple_fields_hold fs b = true.
+Proof.
+  exists [mkSchema "w" wmeta "" (TBad attrs0 "")
+            [("Root", mkObject "Root" []
+                (TStruct attrs0 []
+                   [mkField "b" [] (TScalar (wdef (DBool true)) KBool DNil []) true;
+                    mkField "f" [] (TScalar (wdef (DFloat "float64" "1.5")) KFloat64 DNil []) true;
+                    mkField "i" [] (TScalar {| nullable := true; dflt := DInt "int64" 7; hints := [] |} KInt64 DNil []) false;
+                    mkField "k" [] (TScalar attrs0 KString (DStr "fixed") []) true;
+                    mkField "l" [] (TArray (wdef (DList [DStr "a"; DStr "b"])) wS) true])
+                "w" "Root")]],
+    "w", "Root".
+  eexists. eexists. eexists.
+  split; [reflexivity|]. split; [vm_compute; reflexivity|]. split; [vm_compute; reflexivity|].
+  split; [vm_compute; lia|]. split; vm_compute; reflexivity.
 Qed.
